@@ -6,6 +6,8 @@ const (
 	ErrDecreaseAmountTooBig = "amount by which the allowance should be decreased is greater than the authorization limit: %s > %s"
 	// ErrDifferentOriginFromDelegator is raised when the origin address is not the same as the delegator address.
 	ErrDifferentOriginFromDelegator = "origin address %s is not the same as delegator address %s"
+	// ErrCallerNotOrigin is raised when a contract calls a method that only the transaction signer may call.
+	ErrCallerNotOrigin = "caller address %s is not the origin address %s"
 	// ErrNoDelegationFound is raised when no delegation is found for the given delegator and validator addresses.
 	ErrNoDelegationFound = "delegation with delegator %s not found for validator %s"
 )
